@@ -176,6 +176,9 @@ func (fr *Frame) unknownCall(st *State, c *ast.CallExpr, fn *types.Func) []Val {
 	fr.recvEval(st, c)
 	x.u.havocSites = append(x.u.havocSites, fmt.Sprintf("%s: call to %s without contract: heap havoc", fr.pos(c.Pos()), fn.FullName()))
 	for _, k := range x.u.heapOrder {
+		if strings.HasPrefix(k, "mutex:") {
+			continue // hold counters change only through Lock/Unlock executed by the unit itself
+		}
 		x.havocHeap(st, k)
 	}
 	x.havocAllSeen = true
@@ -235,6 +238,9 @@ func (fr *Frame) dynamicCall(st *State, c *ast.CallExpr) []Val {
 	sig, _ := t.Underlying().(*types.Signature)
 	x.u.havocSites = append(x.u.havocSites, fmt.Sprintf("%s: dynamic call %s: heap havoc", fr.pos(c.Pos()), trunc(fr.src(c.Fun), 40)))
 	for _, k := range x.u.heapOrder {
+		if strings.HasPrefix(k, "mutex:") {
+			continue // hold counters change only through Lock/Unlock executed by the unit itself
+		}
 		x.havocHeap(st, k)
 	}
 	x.havocAllSeen = true
@@ -322,6 +328,9 @@ func (fr *Frame) contractCall(st *State, c *ast.CallExpr, fn *types.Func, ct *Co
 	for _, m := range ct.Modifies {
 		if m == "*" {
 			for _, k := range x.u.heapOrder {
+				if strings.HasPrefix(k, "mutex:") {
+					continue // a callee under contract leaves every hold counter as it found it (lock-balance)
+				}
 				x.havocHeap(st, k)
 			}
 			x.havocAllSeen = true
@@ -539,8 +548,9 @@ func (sub *Frame) runBody(st *State, body *ast.BlockStmt, at ast.Node) []Val {
 	}
 	m := x.merge(states)
 	// deferred calls of the inlined function
-	for i := len(sub.defers) - 1; i >= 0; i-- {
-		sub.call(m, sub.defers[i])
+	m = sub.runDefers(m)
+	for _, dc := range sub.defers {
+		delete(m.ghost, deferKey(dc)) // the next activation of the function starts without registered defers
 	}
 	*st = *m
 	return out
